@@ -92,6 +92,9 @@ package db
 //@ // ... and a closure that publishes may only be handed to OnSuccess (it then runs after the commit,
 //@ // see (*datastore.BasicTxn).Commit)
 //@ discipline closure-calling (event.Bus).Publish only-arg-of (datastore.Txn).OnSuccess
+//@ // what such a closure publishes is what was captured when it was registered: the captured variables are
+//@ // not assigned again afterwards (the closure runs later, at commit)
+//@ discipline captures-frozen (datastore.Txn).OnSuccess tags C20 C05
 //@ extern (datastore.Txn).OnSuccess(txn, fn)
 //@   nodefault
 //@
